@@ -681,6 +681,18 @@ fn run_session_inner(spec: &SessionSpec, verbose: bool) -> SessionResult {
         // model: the line as the last line of the single program made of everything that completed
         let m = model_eval(&p, Some(&text));
         res.model_steps += m.steps;
+        if (line.label == "jumps" || line.label == "literals") && (m.injected == Injected::Budget || matches!(m.injected, Injected::Guard(_))) {
+            // the hand-written lines of the offset / constant-index sweep finish within a thousand steps;
+            // if the same text runs away behind the padding (step budget, or a guard rail such as the
+            // stack limit), its meaning depends on where its code or its literals lie (found with
+            // mutant m14, whose sessions were discarded here as "outside the model's domain")
+            findings.push(Finding {
+                class: "line-outcome-differs".into(),
+                key: format!("ok->{}|after:{}", kind_of(&m.outcome, &m.injected), last_fail),
+                detail: format!("line {} ({:?}): as the last line of the single program of all completed earlier lines it is stopped after {} steps ({}); alone it needs fewer than a thousand", li, text.chars().take(200).collect::<String>(), m.steps, kind_of(&m.outcome, &m.injected)),
+            });
+            break;
+        }
         if m.injected == Injected::Budget || (matches!(m.outcome, Outcome::Panic(_)) && line.fail == Fail::None) {
             // outside the domain the model is defined on (e.g. more than 65535 bytes of code)
             res.inconsistent = true;
